@@ -360,6 +360,8 @@ package syncer
 //@   after_call lmdb.(*Txn).Flags#1 ghost loc_flags := uint64(ret0)
 //@   at_call snapshot.(*DBI).SetFlags#0 assert original_flags: arg1 == ghost_loc_flags && iff(isDupSort, ghost_loc_flags & 4 != 0)
 //@   at_call lmdb.(*Txn).OpenCursor#0 assert cursor_on_the_dumped_dbi: uint64(arg1) == ghost_loc_dbi
+//@   loop 0 invariant cursor_steps_one_entry_at_a_time: flag == lmdb.First || flag == lmdb.Next
+//@   at_call lmdb.(*Cursor).Get#0 assert visits_every_entry_in_turn: arg3 == lmdb.First || arg3 == lmdb.Next
 //@   at_call snapshot.(*DBI).Append#0 assert key_as_stored: arrayOf(arg1.Key) == ghost_loc_keyArr && offsetOf(arg1.Key) == ghost_loc_keyOff && len(arg1.Key) == ghost_loc_keyLen
 //@   at_call snapshot.(*DBI).Append#0 assert header_split: !rawValues ==> arg1.TimestampNano == ghost_loc_ts && arg1.Flags == uint32(ghost_loc_fl & 1)
 //@   at_call snapshot.(*DBI).Append#0 assert value_after_whole_header: !rawValues ==> arrayOf(arg1.Value) == ghost_loc_valArr && offsetOf(arg1.Value) == ghost_loc_valOff + 24 + 8*ghost_loc_ne && len(arg1.Value) == ghost_loc_valLen - 24 - 8*ghost_loc_ne
@@ -409,6 +411,10 @@ package syncer
 //@   after_call strings.HasPrefix#0 ghost loc_needDump := ite(ret0, 0, 1)
 //@   after_call syncer.(*Syncer).readDBI#0 ghost loc_needDump := 0
 //@   loop 0 invariant every_dbi_dumped: ghost_loc_needDump == 0
+//@   after_call syncer.(*Syncer).readDBI#0 ghost loc_needAppend := ite(ret1 == nil, 1, 0)
+//@   after_call append#0 ghost loc_needAppend := 0
+//@   loop 0 step every_dump_goes_into_the_snapshot: ghost_loc_needAppend == 0
+//@   loop 0 ghost loc_needAppend := 0
 //@   loop 0 invariant not_failed: ghost_loc_failed == 0
 //@   at_call syncer.(*Syncer).readDBI#0 assert dumps_with_headers: !arg4 && arg3 == dbiName && !hasPrefix(arg3, "_sync")
 //@   at_call syncer.(*Syncer).readDBI#0 assert shadow_source: (schemaTracksChanges ==> sameSlice(arg2, arg3)) && (!schemaTracksChanges ==> hasPrefix(arg2, "_sync_shadow_"))
